@@ -970,8 +970,24 @@ def samples_of(a):
     return [a[1]] if a[0] == "K" else TY_SAMPLES[a[1]]
 
 
+# past failures / shapes that must always run (the seeded "%*.*f" shape on typed arguments too)
+TYPED_CORPUS = [
+    ("%%a", ("S", ("A", "bytes"))),
+    ("%%", ("S", ("K", [1]))),
+    ("%%", ("S", ("K", b"x"))),
+    (b"%%", ("S", ("A", "bytes"))),
+    ("%%", ("S", ("A", "int"))),
+    ("%*.*f", ("T", [[("A", "int")], [("A", "int")], [("A", "float")]])),
+    ("%*.*f", ("T", [[("A", "int")], [("A", "float")]])),
+    ("%d %s", ("T", [[("A", "int"), ("A", "str")], [("A", "any")]])),
+    ("%*d", ("T", [[("A", "other"), ("A", "bytes")], [("A", "int")]])),
+    ("%c", ("S", ("A", "int"))),
+    ("%x", ("S", ("A", "float"))),
+]
+
+
 def gen_typed_cases(n, rng):
-    cases = []
+    cases = list(TYPED_CORPUS)
     while len(cases) < n:
         t, ta = gen_typed_case(rng)
         txt = t.decode("latin-1") if isinstance(t, bytes) else t
@@ -1019,13 +1035,23 @@ def typed_stream(cases, rng, exe, known_ids):
 
         serials = [isinstance(x, StarConversionSpecifier) for x in fs.get_serial_specifiers()]
         combos = []
-        for _ in range(60):
-            alts = [rng.randrange(len(u)) for u in elems]
-            objs = [rng.choice(samples_of(u[k])) for u, k in zip(elems, alts)]
+        # every (alternative, sampled member) combination when there are few enough of them;
+        # otherwise a random sample, which is only good for the soundness statement (fewer
+        # combinations can only make "all of them raise" easier) — the completeness statement
+        # ("every member raises") is evaluated on exhaustive enumerations only
+        choices = [[(k, o) for k, a in enumerate(u) for o in samples_of(a)] for u in elems]
+        size = 1
+        for c in choices:
+            size *= max(1, len(c))
+        exhaustive = size <= 600
+        picks = itertools.product(*choices) if exhaustive else ([rng.choice(c) for c in choices] for _ in range(60))
+        for pick in picks:
+            alts = [k for k, _ in pick]
+            objs = [o for _, o in pick]
             if any(type(o) is int and abs(o) > 2000 for o, sp in zip(objs, serials) if sp):
                 continue  # a huge '*' width would be allocated
             arg = objs[0] if ta[0] == "S" else tuple(objs)
-            if ta[0] == "S" and isinstance(arg, (tuple, dict, list)):
+            if ta[0] == "S" and isinstance(arg, tuple):
                 continue
             r = cpython_percent(t, arg)
             if r[0] in ("ok", "raise"):
@@ -1048,14 +1074,28 @@ def typed_stream(cases, rng, exe, known_ids):
                         sel = [c for c in combos if c[0][pos] == k]
                         if not sel or all(c[2] for c in sel):
                             ok = True  # (no sampled member of this alternative could be executed: inconclusive)
+            # C17-escape-only-mapping-arg on the typed stream: a scalar whose run-time members CPython
+            # takes for the *mapping* argument (it has __getitem__ and is neither tuple nor str, nor
+            # bytes for a bytes template), applied to a template whose only specifiers are "%%":
+            # CPython never raises "not all arguments converted" for it, pyanalyze reports ETooMany
+            scalar = ta[1] if ta[0] == "S" else None
+            escape_only = (
+                scalar is not None and acc == ["ETooMany"] and not any(serials) and len(serials) == 0
+                and ((scalar[0] == "A" and scalar[1] == "bytes" and not isinstance(t, bytes))
+                     or (scalar[0] == "K" and (isinstance(scalar[1], (dict, list)) or (isinstance(scalar[1], bytes) and not isinstance(t, bytes)))))
+            )
             if not ok:
-                if crange and "ECRange" in acc and "C17-c-range-str" in known_ids and agrees:
+                if escape_only and "C17-escape-only-mapping-arg" in known_ids and agrees:
+                    _bump(res["known"], "C17-escape-only-mapping-arg")
+                elif crange and "ECRange" in acc and "C17-c-range-str" in known_ids and agrees:
                     _bump(res["known"], "C17-c-range-str")
                 else:
                     res["new"].append((typed_payload(t, ta), "reported " + ",".join(acc) + " but no alternative raises for all of its sampled members", ("", "")))
         else:
+            if not exhaustive:
+                continue
             res["complete_checked"] += 1
-            if all_raise and len(combos) >= 5:
+            if all_raise:
                 if big and "C17-numeric-overflow" in known_ids and agrees:
                     _bump(res["known"], "C17-numeric-overflow")
                 else:
